@@ -11,7 +11,7 @@ from .. import specmon
 from ..models import intervals as iv
 from ..monitor import violation, bump
 from ..workloads import specs as W
-from ._spec_common import eval_tree, run_trees
+from ._spec_common import eval_tree, run_trees, small_scope_triples, spec_laws
 
 PROP = "C05"
 ANCHORS = ['dep_logic.specifiers.range:RangeSpecifier.__and__', 'dep_logic.specifiers.range:RangeSpecifier.__or__', 'dep_logic.specifiers.range:RangeSpecifier.__invert__', 'dep_logic.specifiers.union:UnionSpecifier.__and__', 'dep_logic.specifiers.union:UnionSpecifier.__or__', 'dep_logic.specifiers.union:UnionSpecifier.__invert__', 'dep_logic.specifiers.union:UnionSpecifier._from_ranges', 'dep_logic.specifiers.special:AnySpecifier.__eq__', 'dep_logic.specifiers.special:EmptySpecifier.__eq__', 'dep_logic.specifiers:_from_pkg_specifier', 'dep_logic.specifiers:parse_version_specifier']
@@ -89,12 +89,39 @@ def _case(ctx):
     return per_case
 
 
+def _small(ctx):
+    from ..monitor import CaseTimeout, oracle
+
+    def per_triple(objs, texts):
+        a, b, c = objs
+        vals = []
+        for name, lf, rf in spec_laws(a, b, c):
+            for side in (lf, rf):
+                if side is None:
+                    continue
+                try:
+                    vals.append(side())
+                except CaseTimeout:
+                    raise
+                except Exception:  # noqa: BLE001  (reported by C01/C14)
+                    pass
+        uniq, seen = [], set()
+        for v in vals:
+            if id(v) not in seen:
+                seen.add(id(v))
+                uniq.append(v)
+        with oracle():
+            specmon.pairwise_eq_check(ctx, uniq[:24], PROP)
+    return per_triple
+
+
 def run(ctx):
     if ctx.shard == 0:  # the repository's own pinned examples as one more workload (outcomes ignored)
         from ..repotests import run_repo_tests
 
         run_repo_tests(ctx, ("specifier", "marker", "tags"))
     run_trees(ctx, _case(ctx), scale=0.2)
+    small_scope_triples(ctx, _small(ctx))
 
 
 def replay(ctx, case):
@@ -102,5 +129,8 @@ def replay(ctx, case):
         from ..repotests import run_repo_tests
 
         run_repo_tests(ctx, nodeid=case["nodeid"])
+        return
+    if case.get("kind") == "small-triple":
+        small_scope_triples(ctx, _small(ctx))
         return
     _case(ctx)(case["tree"], None)
